@@ -7,7 +7,8 @@ use std::time::Instant;
 
 pub fn run(cfg: &Config) -> i32 {
 	let started = Instant::now();
-	let thorough = cfg.tier == Tier::Thorough;
+	let thorough = cfg.tier == Tier::Thorough && !cfg.san;
+	let small = if cfg.san { 1 } else { 0 };
 	let flags = Flags {
 		c05: true,
 		..Default::default()
@@ -19,8 +20,8 @@ pub fn run(cfg: &Config) -> i32 {
 	let mut add = |total: &mut Report, (r, _): (Report, Vec<u8>)| total.merge(r);
 	add(&mut total, pf::fam_valid_token_docs(cfg, flags, if thorough { 8 } else { 7 }));
 	add(&mut total, pf::fam_generated(cfg, flags, cfg.budget(300_000, 10_000_000), false));
-	add(&mut total, pf::fam_sigma(cfg, flags, "sigma-c-strings", &crate::gen::SIGMA_C, if thorough { 5 } else { 4 }));
-	add(&mut total, pf::fam_sigma(cfg, flags, "sigma-t-token-sequences", &crate::gen::SIGMA_T, if thorough { 6 } else { 5 }));
+	add(&mut total, pf::fam_sigma(cfg, flags, "sigma-c-strings", &crate::gen::SIGMA_C, if thorough { 5 } else { 4 - small }));
+	add(&mut total, pf::fam_sigma(cfg, flags, "sigma-t-token-sequences", &crate::gen::SIGMA_T, if thorough { 6 } else { 5 - small }));
 	add(&mut total, pf::fam_surrogates(cfg, flags, 3));
 	add(&mut total, pf::fam_large(cfg, flags, if thorough { 64 } else { 16 }, if thorough { 100_000 } else { 20_000 }));
 	conclude(
@@ -34,7 +35,7 @@ pub fn run(cfg: &Config) -> i32 {
 		},
 		total,
 		started,
-		500_000,
+		if cfg.san { 50_000 } else { 500_000 },
 	)
 	.exit
 }
